@@ -7,15 +7,23 @@ of the directory reader (props/C05/h_lookup.c: sqfs_dir_reader_resolve_path with
 DOT_ENTRIES reader + resolve_inum, sqfs_dir_reader_get_full_hierarchy with and without STORE_PARENTS), every path in a
 heap buffer of exactly strlen+1 bytes, under ASan+UBSan, and through rdsquashfs -l/-s/-c <path>.
 
-Oracle: no sanitizer report / signal / time-out; and the answer equals the answer of the model of the component loop
-(coq/C05/Lookup.v, `resolve` with rule LenStrlen; `expect_resolve` below is its transliteration, the vectors of
-Lookup.v's Examples are re-evaluated through it by `selftest`): OK <ref> iff at every component the first entry whose
-C string equals the component exists, NOT_DIR / NO_ENTRY otherwise."""
+Oracle: no sanitizer report / signal / time-out; and the answer of sqfs_dir_reader_resolve_path equals the answer of
+the EXTRACTED model of its component loop (coq/C05/Lookup.v `resolve` with rule LenStrlen, extracted by
+coq/Extract/ExtractC05Lookup.v, run by props/C05/lookup_driver.ml on the directory listings the independent reader
+vlib/sqfsimg.py takes from the image; all queries of a run go through one driver process): OK <ref> iff at every
+component the first entry whose C string equals the component exists, NOT_DIR / NO_ENTRY otherwise.
+`expect_resolve` (a Python transliteration of `resolve`) is no longer the oracle: `selftest` checks the driver against
+the Examples of Lookup.v and against it, and it answers only the few queries whose evaluation in the list/unary-nat
+model would take too long (a name AND a path of tens of KiB: cost estimate > MODEL_COST_LIMIT; counted as
+`model_skipped`).  sqfs_dir_reader_get_full_hierarchy's component loop has a different shape (compare length from
+strchrnul(path, '/'), then name[len] == 0; not `match_ent`): it is not in the Coq model, its answers are compared with
+`expect_tree` (Python, observed)."""
 import os
 import re
 import subprocess
 
 from vlib import build as B
+from vlib import core
 from vlib.sqfsimg import Builder, BNode, Image, ParseError, T_DIR, T_FILE
 
 HERE = os.path.dirname(os.path.abspath(__file__))
@@ -34,7 +42,71 @@ def cstr(b):
     return b.split(b"\0")[0]
 
 
+# ---- the extracted model (coq/Extract/ExtractC05Lookup.v + lookup_driver.ml) ----
+
+MODEL_COST_LIMIT = 5 * 10 ** 6      # list cells touched by one `resolve` (rdc = nth_error (s ++ [0]) i is linear in the buffer): ~0.15 s
+
+
+def model_driver():
+    return core.build_model_driver("C05lookup", "ExtractC05Lookup.v", os.path.join(HERE, "lookup_driver.ml"))
+
+
+def hx(b):
+    return b.hex() or "-"
+
+
+def fs_line(fs, root):
+    return "fs %d %s\n" % (root, " ".join("%d=%s" % (r, ",".join("%s:%d" % (hx(nm), rf) for nm, rf in ents))
+                                          for r, ents in fs.items() if ents is not None))
+
+
+def parse_answer(l):
+    w = l.split(" ")
+    if w[0] == "OK":
+        return ("OK", int(w[1]))
+    if w[0] == "ERR":
+        return ("ERR", "SQFS_ERROR_" + w[1])
+    return (w[0],)          # CRASH / FUEL / BAD: never the answer of the library
+
+
+def run_model(D, text, n, timeout=600):
+    """one driver process; n answer lines expected"""
+    r = subprocess.run([D], input=text.encode(), stdout=subprocess.PIPE, stderr=subprocess.PIPE, timeout=timeout)
+    out = r.stdout.decode().split("\n")
+    if out and out[-1] == "":
+        out.pop()
+    if r.returncode != 0 or len(out) != n:
+        raise RuntimeError("C05lookup model driver: rc=%s, %d answers for %d queries: %s" % (
+            r.returncode, len(out), n, r.stderr.decode()[-300:]))
+    return [parse_answer(l) for l in out]
+
+
+def model_cost(fs, root, path):
+    """list cells the extracted `resolve` touches on this query (walk of the transliteration)"""
+    cur, i, cost = root, 0, len(path)
+    while i < len(path):
+        if path[i:i + 1] == b"/":
+            i += 1
+            continue
+        ents = fs.get(cur)
+        if ents is None:
+            break
+        for nm, ref in ents:
+            c = cstr(nm)
+            L = len(c)
+            k = len(os.path.commonprefix([c, path[i:i + L]]))
+            cost += (k + 2) * (len(nm) + len(path) + 2)
+            if k == L and (i + L == len(path) or path[i + L:i + L + 1] == b"/"):
+                i += L
+                cur = ref
+                break
+        else:
+            break
+    return cost
+
+
 # ---- transliteration of coq/C05/Lookup.v (resolve LenStrlen); fs: ref -> None (not a directory) | [(name, ref)] ----
+# (cross-check of the driver in selftest, and the answer for queries beyond MODEL_COST_LIMIT; NOT the oracle otherwise)
 
 def expect_resolve(fs, root, path):
     cur, i = root, 0
@@ -76,8 +148,8 @@ def expect_tree(fs, root, path):
     return ("OK", cur, name)
 
 
-def selftest():
-    """the Examples of coq/C05/Lookup.v, through the transliteration"""
+def selftest(D=None):
+    """the Examples of coq/C05/Lookup.v through the extracted model (and the transliteration against the model)"""
     fs = {0: [(b"a\0XXXX", 1), (b"ab", 2), (b"a", 3)], 1: [(b"x", 4)], 2: None, 3: [(b"y", 5)], 4: None, 5: None}
     assert expect_resolve(fs, 0, b"a") == ("OK", 1)
     assert expect_resolve(fs, 0, b"/a//x/") == ("OK", 4)
@@ -86,6 +158,19 @@ def selftest():
     assert expect_resolve(fs, 0, b"ab/x") == ("ERR", "SQFS_ERROR_NOT_DIR")
     assert expect_resolve(fs, 0, b"a/y") == ("ERR", "SQFS_ERROR_NO_ENTRY")
     assert expect_resolve(fs, 0, b"") == ("OK", 0)
+    if D is None:
+        return
+    # Lookup.v: resolve_size_len_refuted_l, resolve_ex_nested, resolve_ex_prefix, resolve_ex_notdir on wit_dirs
+    wit = {0: [(b"a\0XXXX", 1), (b"ab", 2)], 1: [(b"x", 3)]}
+    got = run_model(D, "w 61\nw 2f612f2f782f\nw 616263\nw 61622f78\n" + fs_line(wit, 0) + "s 61\nq 61\n", 6)
+    want = [("OK", 1), ("OK", 3), ("ERR", "SQFS_ERROR_NO_ENTRY"), ("ERR", "SQFS_ERROR_NOT_DIR"), ("CRASH",), ("OK", 1)]
+    if got != want:
+        raise RuntimeError("C05lookup model driver does not reproduce the Examples of coq/C05/Lookup.v: %s" % (got,))
+    qs = [b"a", b"/a//x/", b"ab", b"abc", b"ab/x", b"a/y", b"", b"a/x/z", b"//", b"b", b"a" * 300]
+    got = run_model(D, fs_line(fs, 0) + "".join("q %s\n" % hx(q) for q in qs), len(qs))
+    for q, g in zip(qs, got):
+        if g != expect_resolve(fs, 0, q):
+            raise RuntimeError("C05lookup: extracted model %s, transliteration %s on %r" % (g, expect_resolve(fs, 0, q), q))
 
 
 # ---- images ----
@@ -174,7 +259,8 @@ def parse_fs(img):
 
 
 def run_leg(ctx, e, rnd, run_proc, died, timeout):
-    selftest()
+    D = model_driver()
+    selftest(D)
     H = B.compile_harness(e.info, [os.path.join(HERE, "h_lookup.c")], "h_lookup_c05",
                           extra=["-I" + os.path.join(B.REPO, "include")])
     codes = err_codes()
@@ -200,13 +286,33 @@ def run_leg(ctx, e, rnd, run_proc, died, timeout):
         open(c["qf"], "w").write("".join((q.hex() or "-") + "\n" for q in c["qs"]))
     from concurrent.futures import ThreadPoolExecutor
 
+    # the extracted model on every (listing, path): ONE driver process for the run, beside the harness runs
+    mtext, mslots, skipped = [], [], 0
+    for c in cases:
+        c["parsed"] = parse_fs(c["img"])
+        c["model"] = {}
+        if c["parsed"] is None:
+            continue
+        fs, _, root = c["parsed"]
+        mtext.append(fs_line(fs, root))
+        for q in c["qs"]:
+            if model_cost(fs, root, q) > MODEL_COST_LIMIT:
+                skipped += 1
+                continue
+            mtext.append("q %s\n" % hx(q))
+            mslots.append((c, q))
+
     def runh(c):
         return run_proc([H, c["path"], c["qf"]], env=e.env, timeout=timeout * 3)
-    with ThreadPoolExecutor(12) as ex:
+    with ThreadPoolExecutor(13) as ex:
+        mfut = ex.submit(run_model, D, "".join(mtext), len(mslots))
         hres = list(ex.map(runh, cases))
+        for (c, q), a in zip(mslots, mfut.result()):
+            c["model"][q] = a
     viol = []
     st = dict(runs=len(cases), compared=0, agree=0, unk=0, nontrivial=set(), tree_ok=0, err_classes={}, tool_runs=0,
-              verdict_checked=0, img_compared=0, img_agree=0, images=len(cases), queries=0, calls=0, answers_checked=0, found=0)
+              verdict_checked=0, img_compared=0, img_agree=0, images=len(cases), queries=0, calls=0, answers_checked=0, found=0,
+              model_answers=len(mslots), model_skipped=skipped)
     tool_jobs = []
     for c, r in zip(cases, hres):
         out = r["out"].decode("latin-1").split("\n")
@@ -229,7 +335,7 @@ def run_leg(ctx, e, rnd, run_proc, died, timeout):
             viol.append(dict(sig="machinery:lookup-harness", what="h_lookup gave no complete transcript on '%s': rc=%s %s" % (
                 c["name"], r["rc"], r["err"][:200]), img=c["img"], name=c["name"], concrete=False, detail=dict(leg="lookup")))
             continue
-        parsed = parse_fs(c["img"])
+        parsed = c["parsed"]
         if parsed is None:
             st["unk"] += 1
             continue
@@ -252,7 +358,11 @@ def run_leg(ctx, e, rnd, run_proc, died, timeout):
                 break
             st["calls"] += 5
             bad = None
-            er = expect_resolve(fs, root, q)
+            er = c["model"].get(q)
+            src = "extracted model coq/C05/Lookup.v resolve LenStrlen"
+            if er is None:          # beyond MODEL_COST_LIMIT (counted in model_skipped)
+                er = expect_resolve(fs, root, q)
+                src = "Python transliteration of coq/C05/Lookup.v (query too long for the extracted model)"
             for tag in ("rp", "rr"):
                 got = a[tag]
                 if tag == "rr" and not any(x for x in q.split(b"/")):
@@ -260,12 +370,14 @@ def run_leg(ctx, e, rnd, run_proc, died, timeout):
                 st["answers_checked"] += 1
                 if er[0] == "OK":
                     if got[0] != "OK" or int(got[1]) != er[1]:
-                        bad = (tag, got, er)
+                        bad = (tag, got, er, src)
+                elif er[0] != "ERR":
+                    bad = (tag, got, er, src)
                 elif got[0] != "ERR" or int(got[1]) != codes[er[1]]:
-                    bad = (tag, got, (er[0], er[1], codes[er[1]]))
+                    bad = (tag, got, (er[0], er[1], codes[er[1]]), src)
             comps = [x for x in q.split(b"/") if x]
             if not any(x in (b".", b"..") for x in comps) and a["rd"][:2] != a["rp"][:2]:
-                bad = bad or ("rd", a["rd"], a["rp"])
+                bad = bad or ("rd", a["rd"], a["rp"], "the answer of the reader without DOT_ENTRIES")
             et = expect_tree(fs, root, q)
             for tag in ("fh", "fp"):
                 got = a[tag]
@@ -274,20 +386,23 @@ def run_leg(ctx, e, rnd, run_proc, died, timeout):
                     want_name = (et[2].hex() or "-") if tag == "fh" else "-"
                     want_ino = ino[et[1]] if tag == "fh" else ino[root]
                     if got[0] != "OK" or got[1] != want_name or (int(got[2]), int(got[3])) != want_ino:
-                        bad = bad or (tag, got, ("OK", want_name) + want_ino)
+                        bad = bad or (tag, got, ("OK", want_name) + want_ino, "expect_tree (Python, observed)")
                 elif got[0] != "ERR" or int(got[1]) != codes[et[1]]:
-                    bad = bad or (tag, got, (et[0], et[1], codes[et[1]]))
+                    bad = bad or (tag, got, (et[0], et[1], codes[et[1]]), "expect_tree (Python, observed)")
             if er[0] == "OK":
                 st["found"] += 1
             if bad:
-                tag, got, want = bad
+                tag, got, want, src = bad
                 viol.append(dict(sig="lookup-answer:%s" % tag, what="lookup %s of path %r on image '%s' (hostile entry name of %d "
-                                 "bytes): library answers '%s', the component-match model (coq/C05/Lookup.v) '%s'" % (
-                                     tag, q[:80], c["name"], len(c["hostile"]), " ".join(got)[:80], " ".join(map(str, want))[:80]),
+                                 "bytes): library answers '%s', %s '%s'" % (
+                                     tag, q[:80], c["name"], len(c["hostile"]), " ".join(got)[:80], src,
+                                     " ".join(map(str, want))[:80]),
                                  img=c["img"], name=c["name"], concrete=False,
                                  detail=dict(leg="lookup", path_hex=q.hex(), call=tag, impl=got, model=list(map(str, want)),
-                                             correspondence="props/C05/lookup.py: expect_resolve / expect_tree (coq/C05/Lookup.v "
-                                                            "resolve LenStrlen) = h_lookup answers")))
+                                             model_source=src,
+                                             correspondence="props/C05/lookup.py: extracted coq/C05/Lookup.v resolve "
+                                                            "LenStrlen (ExtractC05Lookup.v, lookup_driver.ml) on the image's "
+                                                            "listings = h_lookup rp/rr answers; fh/fp = expect_tree")))
                 break
         else:
             st["img_agree"] += 1
